@@ -329,7 +329,7 @@ func scenarios(thorough bool) []*scenario {
 		}))
 	add(&scenario{name: "methods-transition", about: "methods on arrays whose indices straddle the dense->sparse threshold (4097, 5000)",
 		c: num, mainJS: emptyDense, twinJS: emptySparse, mkModel: emptyArrayModel, ops: tOps,
-		probes: []uint64{0, 1, 2, 4096, 4097, 4098, 5000, 5001}, depthQ: 2, depthT: 3})
+		probes: []uint64{0, 1, 2, 4096, 4097, 4098, 5000, 5001}, depthQ: 3, depthT: 4})
 
 	// ---- sparse -> dense: 1024 stored items ----
 	pIdx := []uint64{0, 1022, 1023, 1024, 4097, 5000, 65536}
@@ -339,7 +339,7 @@ func scenarios(thorough bool) []*scenario {
 		exportProbes(5200)[0], exportProbes(5200)[1], m6("includes", vundef), m6("indexOf", vnum(5000)), m6("lastIndexOf", vnum(0)), m6("at", vnum(-1)), m6("sort"), m6("sort", vfn("cmpRev")))
 	add(&scenario{name: "prefilled-1024", about: "start with 1023 elements + a[5000]: the subject is dense, the twin sparse with exactly 1024 items, so the next new element switches the twin sparse->dense; writing 65536 switches the subject dense->sparse",
 		c: num, mainJS: prefillMain, twinJS: prefillTwin, mkModel: prefillModel, ops: pOps, flo: 1, fhi: 1022,
-		probes: []uint64{0, 1, 1021, 1022, 1023, 1024, 4097, 5000, 5001, 65536}, depthQ: 2, depthT: 3})
+		probes: []uint64{0, 1, 1021, 1022, 1023, 1024, 4097, 5000, 5001, 65536}, depthQ: 3, depthT: 4})
 
 	// ---- array-like plain object ----
 	al := ctx{call: true}
@@ -384,7 +384,7 @@ func scenarios(thorough bool) []*scenario {
 		add(&scenario{name: fmt.Sprintf("sort-long-%d", n), about: fmt.Sprintf("%d-element pattern with many ties (symMerge path of sort.Stable), a few rearrangements, every comparator class", n),
 			c: num, mainJS: lit.js, twinJS: "(function(){var t=[];t[5000]=0;t.length=0;var s=" + lit.js + ";for(var i=0;i<s.length;i++)t[i]=s[i];return t})()",
 			mkModel: func(w *M.World) *M.Obj { return lit.mk(w).(*M.Obj) }, ops: lOps,
-			probes: []uint64{0, 1, 2, 3, 7, 20, 21, 44, 45, 46}, depthQ: 1, depthT: 2})
+			probes: []uint64{0, 1, 2, 3, 7, 20, 21, 44, 45, 46}, depthQ: 2, depthT: 3})
 	}
 	_ = thorough
 	return scs
